@@ -435,6 +435,10 @@ static int d_errfn(fx_t *F, int v, dv_t *o)
     n = dvp(o, n, "foo[0]", X_FAIL, EM_INVAL, "scalar-as-list"); \
     n = dvp(o, n, "", X_FAIL, EM_INVAL, "empty"); \
     n = dvp(o, n, "arr[", X_FAIL, EM_INVAL, "malformed"); \
+    n = dvp(o, n, "arr[1", X_FAIL, EM_INVAL, "subscript-not-closed"); \
+    n = dvp(o, n, "arr[0+", X_FAIL, EM_INVAL, "insert-not-closed"); \
+    n = dvp(o, n, "arr[0 1]", X_FAIL, EM_INVAL, "two-indices"); \
+    n = dvp(o, n, "map.k1[0][1.]", X_FAIL, EM_INVAL | EM_NOENT, "dot-in-subscript"); \
     n = dvp(o, n, "arr[-1]", X_FAIL, EM_INVAL, "index--1"); \
     n = dvp(o, n, "arr[0+]", X_FAIL, EM_INVAL, "insert-in-query"); \
     n = dvp(o, n, "a..b", X_FAIL, EM_INVAL | EM_NOENT, "double-dot")
